@@ -479,3 +479,175 @@ func c03Main(args []string) error {
 	}
 	return fmt.Errorf("unknown c03 mode")
 }
+
+// ---------------------------------------------------------------- C09 (program level)
+
+type optConfig struct {
+	name   string
+	target utils.Target
+	prune  bool
+	thresh int
+}
+
+func optConfigs() []optConfig {
+	var cs []optConfig
+	for _, tg := range []utils.Target{utils.TargetYao, utils.TargetGMW} {
+		for _, pr := range []bool{false, true} {
+			for _, th := range []int{0, 8, 16, 21, 64} {
+				if tg == utils.TargetGMW && th != 0 && th != 21 {
+					continue // the threshold only steers the Yao multiplier
+				}
+				n := fmt.Sprintf("%v/prune=%v/mult=%d", tg, pr, th)
+				cs = append(cs, optConfig{n, tg, pr, th})
+			}
+		}
+	}
+	return cs
+}
+
+func (c optConfig) params() *utils.Params {
+	p := utils.NewParams()
+	p.Target = c.target
+	p.OptPruneGates = c.prune
+	p.CircMultArrayTreshold = c.thresh
+	return p
+}
+
+// c09Program compiles src under every configuration and compares the input->output functions:
+// exhaustively when the inputs have at most 16 bits in total, else on 64 vectors.
+func c09Program(res *Result, src string, tests [][]int, wr int) {
+	var circs []*circuit.Circuit
+	cfgs := optConfigs()
+	for _, cfg := range cfgs {
+		var c *circuit.Circuit
+		var err error
+		func() {
+			defer func() {
+				if x := recover(); x != nil {
+					err = fmt.Errorf("compiler panic: %v", x)
+					res.viol("compiler-panic:"+cfg.name, "the compiler panics under %s: %v", cfg.name, x)
+				}
+			}()
+			c, err = compileMPCL(src, cfg.params())
+		}()
+		if err != nil {
+			if len(circs) == 0 {
+				res.Class = "rejected"
+				return
+			}
+			res.viol("config-rejects:"+cfg.name, "the program compiles under %s but not under %s: %v", cfgs[0].name, cfg.name, err)
+			return
+		}
+		if cfg.target == utils.TargetGMW {
+			c.AssignLevels(utils.TargetGMW)
+		}
+		circs = append(circs, c)
+	}
+	base := circs[0]
+	na, nb := int(base.Inputs[0].Type.Bits), int(base.Inputs[1].Type.Bits)
+	var ins [][2]*big.Int
+	if na+nb <= 16 {
+		for a := 0; a < 1<<uint(na); a++ {
+			for b := 0; b < 1<<uint(nb); b++ {
+				ins = append(ins, [2]*big.Int{big.NewInt(int64(a)), big.NewInt(int64(b))})
+			}
+		}
+		res.Class = "exhaustive"
+	} else {
+		rng := newDetRand(uint64(len(src)) + 99)
+		rb := func(n int) *big.Int {
+			buf := make([]byte, (n+7)/8)
+			rng.Read(buf)
+			v := new(big.Int).SetBytes(buf)
+			return v.And(v, new(big.Int).Sub(new(big.Int).Lsh(big.NewInt(1), uint(n)), big.NewInt(1)))
+		}
+		ones := func(n int) *big.Int { return new(big.Int).Sub(new(big.Int).Lsh(big.NewInt(1), uint(n)), big.NewInt(1)) }
+		ins = append(ins, [2]*big.Int{big.NewInt(0), big.NewInt(0)}, [2]*big.Int{ones(na), ones(nb)}, [2]*big.Int{ones(na), big.NewInt(1)},
+			[2]*big.Int{new(big.Int).Rsh(ones(na), 1), big.NewInt(1)}, [2]*big.Int{big.NewInt(1), ones(nb)})
+		for len(ins) < 64 {
+			ins = append(ins, [2]*big.Int{rb(na), rb(nb)})
+		}
+		res.Class = "sampled-64"
+	}
+	for _, in := range ins {
+		want, err := base.Compute([]*big.Int{in[0], in[1]})
+		if err != nil {
+			res.viol("compute-error", "%v", err)
+			return
+		}
+		for ci := 1; ci < len(circs); ci++ {
+			got, err := circs[ci].Compute([]*big.Int{in[0], in[1]})
+			if err != nil {
+				res.viol("compute-error", "%v", err)
+				return
+			}
+			if !sameBigs(got, want) {
+				res.viol("config-changes-result:"+cfgs[ci].name, "main(%v, %v) = %v under %s but %v under %s\n%s", in[0], in[1], want, cfgs[0].name, got, cfgs[ci].name, src)
+				return
+			}
+		}
+	}
+	// the default configuration is anchored to the specification by the interpreter's predictions
+	for _, t := range tests {
+		out, err := base.Compute([]*big.Int{big.NewInt(int64(t[0])), big.NewInt(int64(t[1]))})
+		if err != nil {
+			return
+		}
+		got := new(big.Int).And(out[0], new(big.Int).Sub(new(big.Int).Lsh(big.NewInt(1), uint(wr)), big.NewInt(1)))
+		if got.Cmp(big.NewInt(int64(t[2]))) != 0 {
+			res.viol("wrong-result", "default configuration: main(%d, %d) computes %v, the semantics give %d\n%s", t[0], t[1], got, t[2], src)
+			return
+		}
+	}
+}
+
+func init() { commands["c09"] = c09Main }
+
+func c09Main(args []string) error {
+	if len(args) < 3 {
+		return fmt.Errorf("usage: vh c09 programs cases.ndjson results.ndjson | vh c09 graphs cases results")
+	}
+	switch args[0] {
+	case "programs":
+		out, err := newND(args[2])
+		if err != nil {
+			return err
+		}
+		defer out.close()
+		idx := 0
+		nviol := 0
+		err = readND(args[1], func(raw json.RawMessage) error {
+			var mc mpCase
+			if err := json.Unmarshal(raw, &mc); err != nil {
+				return err
+			}
+			if nviol >= 6 {
+				return nil
+			}
+			res := &Result{Case: idx, Nontrivial: len(mc.Stmts) >= 3}
+			c09Program(res, renderMpcl(&mc), mc.Tests, mc.Rt.width())
+			if len(res.Viol) > 0 {
+				nviol++
+			}
+			if idx < 2 {
+				res.Sample = renderMpcl(&mc)
+			}
+			idx++
+			out.put(res)
+			return nil
+		})
+		if err != nil {
+			return err
+		}
+		// hand-written and generated alias-heavy programs (no prediction: agreement between configurations)
+		for i, t := range pgTemplates {
+			res := &Result{Case: idx + i, Nontrivial: true}
+			c09Program(res, t, nil, 0)
+			out.put(res)
+		}
+		return nil
+	case "graphs":
+		return c09Graphs(args[1:])
+	}
+	return fmt.Errorf("unknown c09 mode")
+}
